@@ -92,6 +92,36 @@ def wf_order(k: int) -> type:
     ])
 
 
+def wf_wait_audited() -> type:
+    """the waiting step's input event is ALSO accepted by a second step (an audit trail written to the store): after a resume only
+    the waiting step is run again on that input - the auditing step had completed and must not see it a second time"""
+    from vmc.events import Ask, Resp
+
+    async def start(self, ctx, ev, inv):  # noqa: ANN001
+        ctx.send_event(Work(uid=0))
+        return None
+
+    async def ask(self, ctx, ev, inv):  # noqa: ANN001
+        r = await ctx.wait_for_event(Resp, requirements={"key": str(ev.uid)}, timeout=None, waiter_id=f"w{ev.uid}", waiter_event=Ask(uid=ev.uid))
+        await gate(f"a{ev.uid}")
+        return Done(uid=r.uid)
+
+    async def audit(self, ctx, ev, inv):  # noqa: ANN001
+        seen = list(await ctx.store.get("audit", default=[]))
+        await ctx.store.set("audit", seen + [ev.uid])
+        return None
+
+    async def fin(self, ctx, ev, inv):  # noqa: ANN001
+        return StopEvent(result=[ev.uid, list(await ctx.store.get("audit", default=[]))])
+
+    return make_workflow("WaitAudited", [
+        make_step("start", [StartEvent], [Work, None], start),
+        make_step("ask", [Work], [Done], ask),
+        make_step("audit", [Work], [None], audit),
+        make_step("fin", [Done], [StopEvent], fin),
+    ])
+
+
 def wf_typed_state(k: int) -> type:
     """like ``order``, on a TYPED state model: completed items are appended in place to a default-factory list (the field is
     never assigned), a counter is assigned, a third field is never touched"""
@@ -194,6 +224,8 @@ def make_oracle(reference: dict[str, Any]) -> Oracle:
                           f"re-executed with retry_number={rn}")
         if "executions" in reference and h.spec.params.get("family") != "wait":
             for step, n in reference["executions"].items():
+                if step in h.spec.params.get("rehydrated_steps", ()):
+                    continue  # (a step waiting with requirements is run again after a resume to register them again: by design)
                 # count only executions that ran to the end (aborted bodies of the original run excluded)
                 got_n = sum(1 for i in h.invocations if i.step == step and i.exited and
                             type(i.exc).__name__ != "CancelledError")
@@ -278,6 +310,7 @@ def specs(tier: str) -> list[Spec]:
     sp.append(Spec("fan(2,2)/2x", {"family": "fan", "resumes": 2}, lambda: wf_fan(2, 2), resume=True, resume_count=2, max_dev=(4 if q else None)))
     # order-sensitive single-worker queue
     sp.append(Spec("order(3)", {"family": "order"}, lambda: wf_order(3), resume=True))
+    sp.append(Spec("wait_audited", {"family": "wait_audited", "rehydrated_steps": ["ask"]}, wf_wait_audited, scripts=resp_scripts(1), resume=True, max_dev=(4 if q else None)))
     sp.append(Spec("typed_state(3)", {"family": "typed_state"}, lambda: wf_typed_state(3), resume=True))
     sp.append(Spec("typed_state(2)/2x", {"family": "typed_state", "resumes": 2}, lambda: wf_typed_state(2), resume=True, resume_count=2))
     # the client looks at the running context (ctx.to_dict()) once or twice before it pauses the run
